@@ -1010,6 +1010,70 @@ Proof. split; [apply tc_stmt_sound | apply tc_stmt_complete]. Qed.
 Theorem tc_block_iff G cx E b : tc_block G cx E b = true <-> block_ok G cx E b.
 Proof. split; [apply tc_stmt_sound | apply tc_stmt_complete]. Qed.
 
+(* ----------------------------------------------------- terminating statements *)
+
+Lemma hb_spec :
+  (forall s, hb_stmt s = true <-> BreakInStmt s) /\
+  (forall b, hb_block b = true <-> BreakIn b) /\
+  (forall cs : clauses, True).
+Proof.
+  apply stmt_block_clauses_ind; intros; auto; cbn [hb_stmt hb_block];
+    try (split; intros X; [discriminate | inv X]; fail).
+  - (* SIf *) split; intros X.
+    + apply orb_prop in X. destruct X as [X|X]; [apply Br_then; apply H | apply Br_else; apply H0]; assumption.
+    + inv X; apply orb_true_intro; [left; apply H | right; apply H0]; assumption.
+  - (* SBreak *) split; intros; [constructor | reflexivity].
+  - (* SBlock *) split; intros X; [apply Br_block; apply H; assumption | inv X; apply H; assumption].
+  - (* BCons *) split; intros X.
+    + apply orb_prop in X. destruct X as [X|X]; [apply Bi_here; apply H | apply Bi_later; apply H0]; assumption.
+    + inv X; apply orb_true_intro; [left; apply H | right; apply H0]; assumption.
+Qed.
+
+Lemma hb_block_false b : hb_block b = false <-> ~ BreakIn b.
+Proof.
+  destruct hb_spec as [_ [H _]]. split.
+  - intros E B. apply H in B. congruence.
+  - intros N. destruct (hb_block b) eqn:E; [|reflexivity]. apply H in E. contradiction.
+Qed.
+
+Lemma term_spec :
+  (forall s, term_stmt s = true <-> Terminating s) /\
+  (forall b, term_block b = true <-> TerminatingList b) /\
+  (forall cs, term_clauses cs = true <-> TerminatingClauses cs).
+Proof.
+  apply stmt_block_clauses_ind; intros; cbn [term_stmt term_block term_clauses];
+    try (split; intros X; [discriminate | inv X]; fail).
+  - (* SIf *) split; intros X.
+    + apply andb_prop in X. destruct X. apply Tm_if; [apply H | apply H0]; assumption.
+    + inv X. apply andb_true_intro. split; [apply H | apply H0]; assumption.
+  - (* SLoop *) split; intros X.
+    + apply Tm_loop. apply hb_block_false. destruct (hb_block body); [discriminate|reflexivity].
+    + inv X. apply hb_block_false in H1. rewrite H1. reflexivity.
+  - (* SSwitch *) split; intros X.
+    + apply andb_prop in X. destruct X as [X X3]. apply andb_prop in X. destruct X as [X1 X2].
+      apply Tm_switch; [apply H0; assumption | apply hb_block_false; destruct (hb_block d); [discriminate|reflexivity] | apply H; assumption].
+    + inv X. apply andb_true_intro. split; [apply andb_true_intro; split|].
+      * apply H0. assumption.
+      * apply hb_block_false in H5. rewrite H5. reflexivity.
+      * apply H. assumption.
+  - (* SReturn *) split; intros; [constructor | reflexivity].
+  - (* SBlock *) split; intros X; [apply Tm_block; apply H; assumption | inv X; apply H; assumption].
+  - (* BCons *) destruct r as [|s' r'].
+    + split; intros X; [apply Tl_last; apply H; assumption | inv X; apply H; assumption].
+    + split; intros X; [apply Tl_cons; apply H0; assumption | inv X; apply H0; assumption].
+  - (* CNil *) split; intros; [constructor | reflexivity].
+  - (* CCons *) split; intros X.
+    + apply andb_prop in X. destruct X as [X X3]. apply andb_prop in X. destruct X as [X1 X2].
+      apply Tc_cons; [apply H; assumption | apply hb_block_false; destruct (hb_block b); [discriminate|reflexivity] | apply H0; assumption].
+    + inv X. apply andb_true_intro. split; [apply andb_true_intro; split|].
+      * apply H. assumption.
+      * apply hb_block_false in H5. rewrite H5. reflexivity.
+      * apply H0. assumption.
+Qed.
+
+Lemma term_block_iff b : term_block b = true <-> TerminatingList b.
+Proof. apply term_spec. Qed.
+
 (* ------------------------------------------------------------------ programs *)
 
 Lemma tc_globals_iff G gs : forall E E', tc_globals G E gs = Some E' <-> globals_ok G E gs E'.
@@ -1048,9 +1112,9 @@ Proof.
   unfold tc_func, func_ok. split.
   - intros H. apply andb_prop in H. destruct H as [H1 H]. apply andb_prop in H. destruct H as [H2 H3].
     split; [apply nodup_names_spec; assumption|]. split; [apply tc_block_iff; assumption|].
-    intros NE. destruct (fn_results f); [contradiction|assumption].
+    intros NE. apply term_block_iff. destruct (fn_results f); [contradiction|assumption].
   - intros [H1 [H2 H3]]. apply nodup_names_spec in H1. apply tc_block_iff in H2. rewrite H1, H2. simpl.
-    destruct (fn_results f); [reflexivity|]. apply H3. discriminate.
+    destruct (fn_results f); [reflexivity|]. apply term_block_iff. apply H3. discriminate.
 Qed.
 
 Lemma nodupN_spec l : nodupN l = true <-> NoDup l.
